@@ -82,21 +82,23 @@ def run(ctx):
 
     # (3) Abortable wraps handler + response send; registration is the pair-mate of the stored handle
     ex = S.execute
-    exb = F.with_descendants(ex)
+    from .common import deep_bodies, future_bodies
+    exb = deep_bodies(F, ex)
     ab = [(g, bb, t) for g in exb for bb, t in g.calls() if callee_is(t, 'Abortable::new')]
     R.ob('C04.abortable', ('InFlightRequest::execute', 'one Abortable'), len(ab) == 1, 'execute wraps its work in one Abortable', [g.loc(t) for g, _, t in ab] or [ex.loc(ex.d)])
     for g, bb, t in ab:
-        inner = [r for r, _ in P.root(P.operand(g, t['args'][0], at=bb))]
-        ok = len(inner) == 1 and inner[0][0] == 'agg' and P._agg_rv(inner[0])['adt'] == 'coroutine'
-        body = F.fns.get(P._agg_rv(inner[0])['adt_id']) if ok else None
+        fb = future_bodies(F, P, g, t['args'][0], bb)    # an async block, or a call to a local async fn
+        ok = len(fb) == 1
+        body = fb[0] if ok else None
         has_serve = has_send = False
         if body is not None:
-            bs = F.with_descendants(body)
+            bs = deep_bodies(F, body)
             has_serve = any(callee_is(t2, 'server::Serve::serve') for x in bs for _, t2 in x.calls())
             has_send = any(callee_is(t2, 'mpsc::Sender::send') for x in bs for _, t2 in x.calls())
         R.ob('C04.abortable', ('InFlightRequest::execute', 'handler and response send inside the Abortable'), ok and has_serve and has_send,
              'both the handler invocation and the hand-off of its response are inside the abortable future, so an abort stops both', [g.loc(t)])
-        outside = [(x, t2) for x in exb if body is None or not x.id.startswith(body.id) for _, t2 in x.calls() if callee_is(t2, 'server::Serve::serve', 'mpsc::Sender::send')]
+        inside_ids = {x.id for x in deep_bodies(F, body)} if body is not None else set()
+        outside = [(x, t2) for x in exb if x.id not in inside_ids for _, t2 in x.calls() if callee_is(t2, 'server::Serve::serve', 'mpsc::Sender::send')]
         R.ob('C04.abortable', ('InFlightRequest::execute', 'nothing runs outside the Abortable'), not outside,
              'no handler call or response send exists outside the abortable future', [x.loc(t2) for x, t2 in outside] or [g.loc(t)])
         rr = P.root(P.operand(g, t['args'][1], at=bb))
